@@ -71,6 +71,10 @@ def impl_layer(rep, args, res):
 def edited(rep, args, d, res):
     if not args.replay:
         impl_layer(rep, args, res)
+    edited_generic(rep, args, d, "views", "BCR", "2", "1")
+
+
+def edited_generic(rep, args, d, which, ops, maxp, maxs):
     quick = args.tier == "quick"
     if args.replay:
         with open(args.replay) as f:
@@ -78,10 +82,12 @@ def edited(rep, args, d, res):
         if rp.get("dom") != "E":
             return
         seeds = [rp["seed_state"]]
-        env = {"MAXDEPTH": str(len(rp["hist"])), "MAXP": "2", "MAXS": "1", "OPS": "BCR"}
+        env = {"MAXDEPTH": str(len(rp["hist"])), "MAXP": maxp, "MAXS": maxs, "OPS": ops}
     else:
         seeds = [s for s in edits.make_seeds(args.seed, 14 if quick else 40, max_level=6) if any(r["k"] == "region" for r in s["H"].values())]
-        env = {"MAXDEPTH": "1", "MAXP": "2", "MAXS": "1", "OPS": "BCR"}
+        if which == "tables":
+            seeds = [s for s in seeds if any(r["k"] in ("head", "latch", "exitbranch", "branch") for r in s["H"].values())][: (3 if quick else 12)] + edits.handmade_seeds()
+        env = {"MAXDEPTH": "1", "MAXP": maxp, "MAXS": maxs, "OPS": ops}
     sp, rk, dump = os.path.join(d, "ev-seeds.json"), os.path.join(d, "ev-rank.json"), os.path.join(d, "ev.dump")
     with open(sp, "w") as f:
         json.dump([{k: s[k] for k in ("H", "ng", "root")} for s in seeds], f)
@@ -107,7 +113,7 @@ def edited(rep, args, d, res):
         p = os.path.join(d, "ev-%02d.json" % i)
         with open(p, "w") as f:
             json.dump([{x: c[x] for x in ("root", "Hs", "H", "dup", "hook")} for c in cases[i::nsh]], f, separators=(",", ":"))
-        envs.append({"CASES": p})
+        envs.append({"CASES": p, "WHICH": which})
     results = tlc.run_shards("EditViews", ECFG + "INVARIANT Applicable\n", envs, jobs=args.jobs, workers=1, timeout=3000, heap="3g")
     tlc.require_ok(results, "EditViews")
     napp = 0
@@ -128,16 +134,16 @@ def edited(rep, args, d, res):
         napp += tr.distinct - na
     if not args.replay and napp < 50:
         raise tlc.MachineryError("vacuous run: only %d edited graphs on which the view contract applies" % napp)
-    rep.coverage["edited_graphs"] = {"module": "Edit.tla (enumeration) + EditViews.tla (contract)", "seed_states": len(seeds), "histories_enumerated_by_tlc": r.distinct,
+    rep.coverage["edited_graphs" if which == "views" else "edited_graphs_tables"] = {"module": "Edit.tla (enumeration) + EditViews.tla (contract)", "seed_states": len(seeds), "histories_enumerated_by_tlc": r.distinct,
                                      "replayed_on_real_objects": len(cases), "contract_applies": napp,
-                                     "what": "insert_block / insert_block_and_control_blocks / join_returns with every level, ordered P (<=2), S (<=1) applied to "
-                                             "restructured seed graphs; views and iteration recorded from the real result"}
+                                     "what": "edit primitives (%s) with every level, ordered P (<=%s), S (<=%s) applied to restructured / hand-made seed graphs; "
+                                             "observations recorded from the real result" % (ops, maxp, maxs)}
     rep.coverage["states"] = rep.coverage.get("states", 0) + r.distinct + sum(t.distinct for t in results)
 
 
 def main(argv):
     return run_family(
-        "C16", "C16", argv, "XRBSN",
+        "C16", "C16", argv, "XRBSNM",
         nontrivial=lambda s: s["nblocks"] > s["n"] + 1,
         rule="after every stage of every behaviour: list(scfg) and list(concealed_region_view) of the root and of every sub-region at every depth, "
              "checked by TLC against the contract (permutation, head first, each item after a predecessor); non-trivial = the hierarchy has at least one region; "
